@@ -217,6 +217,53 @@ func discharge0(o *Obligation, timeout time.Duration) (r OblResult) {
 			}
 		}
 	}
+	// p <=> forall k. B  as a goal: two directions; as a fact: the forall direction plus a skolem witness
+	if o.Goal != nil {
+		if parts := splitIffForall(o); len(parts) > 0 {
+			for _, po := range parts {
+				pr := discharge0(po, timeout)
+				if pr.Verdict != "proved" {
+					pr.Name, pr.Kind, pr.Func, pr.Detail, pr.Pos = o.Name, o.Kind, o.Func, o.Detail, o.Pos
+					pr.Info = "[direction " + po.Detail + "] " + pr.Info
+					return pr
+				}
+				r.Backend = pr.Backend
+			}
+			r.Verdict, r.Backend = "proved", "cases("+r.Backend+")"
+			return r
+		}
+		if extra := iffForallFacts(o.Facts); len(extra) > 0 {
+			o = &Obligation{Name: o.Name, Kind: o.Kind, Func: o.Func, Facts: append(append([]*Term(nil), o.Facts...), extra...), Goal: o.Goal, Detail: o.Detail, Pos: o.Pos, Uses: o.Uses, Axioms: o.Axioms, Alg: o.Alg}
+		}
+	}
+	// p ==> forall k. B : assume p
+	for o.Goal != nil && o.Goal.op == OImp && o.Goal.args[1].op == OForall {
+		o = &Obligation{Name: o.Name, Kind: o.Kind, Func: o.Func, Facts: append(append([]*Term(nil), o.Facts...), o.Goal.args[0]), Goal: o.Goal.args[1], Detail: o.Detail, Pos: o.Pos, Uses: o.Uses, Axioms: o.Axioms, Alg: o.Alg}
+	}
+	// a universally quantified goal is proved for a fresh constant
+	for o.Goal != nil && o.Goal.op == OForall && o.Goal.args[0].sort == SInt {
+		k0 := FreshVar("sk", SInt)
+		g := substitute(o.Goal.args[1], map[int]*Term{o.Goal.args[0].id: k0}, map[int]*Term{})
+		o = &Obligation{Name: o.Name, Kind: o.Kind, Func: o.Func, Facts: o.Facts, Goal: g, Detail: o.Detail, Pos: o.Pos, Uses: o.Uses, Axioms: o.Axioms, Alg: o.Alg}
+	}
+	// case split on an array update read at the skolem index:  select(store(a, j, v), idx)
+	if o.Goal != nil {
+		if parts := splitStoreGoal(o); len(parts) > 0 {
+			for _, po := range parts {
+				pr := discharge0(po, timeout)
+				if pr.Verdict != "proved" {
+					pr.Name, pr.Kind, pr.Func, pr.Detail, pr.Pos = o.Name, o.Kind, o.Func, o.Detail, o.Pos
+					pr.Info = "[case " + po.Detail + "] " + pr.Info
+					return pr
+				}
+				r.Backend = pr.Backend
+			}
+			r.Verdict = "proved"
+			r.Backend = "cases(" + r.Backend + ")"
+			r.Info += "case split on the updated array element; "
+			return r
+		}
+	}
 	// instances of the quantified assumptions for the ground terms at hand (quant.go)
 	if o.Goal != nil {
 		if inst := instantiateQuantifiers(o.Facts, o.Goal); len(inst) > 0 {
@@ -542,6 +589,107 @@ func hasNonlinear(facts []*Term, goal *Term) bool {
 		rec(goal)
 	}
 	return found
+}
+
+// splitStoreGoal: the goal reads an updated array at an index that mentions a skolem constant:
+// prove it once for "the index is the updated one" (skolem constant solved for) and once for
+// "it is a different one" (the read goes to the old array). Sound: the two cases are exhaustive.
+func splitStoreGoal(o *Obligation) []*Obligation {
+	var sel *Term
+	seen := map[int]bool{}
+	var rec func(t *Term)
+	rec = func(t *Term) {
+		if sel != nil || seen[t.id] {
+			return
+		}
+		seen[t.id] = true
+		if t.op == OSelect && t.args[0].op == OStore {
+			hasSk := false
+			walk(t.args[1], map[int]bool{}, func(x *Term) {
+				if x.op == OVar && strings.HasPrefix(x.name, "sk!") {
+					hasSk = true
+				}
+			})
+			if hasSk {
+				sel = t
+				return
+			}
+		}
+		if t.op == OForall {
+			return
+		}
+		for _, a := range t.args {
+			rec(a)
+		}
+	}
+	rec(o.Goal)
+	if sel == nil {
+		return nil
+	}
+	st := sel.args[0]
+	j, idx := st.args[1], sel.args[1]
+	// the skolem variable inside idx
+	var sk *Term
+	walk(idx, map[int]bool{}, func(x *Term) {
+		if x.op == OVar && strings.HasPrefix(x.name, "sk!") && sk == nil {
+			sk = x
+		}
+	})
+	c, rest, ok := linearIn(idx, sk)
+	if !ok || c.Cmp(bi(1)) != 0 {
+		return nil
+	}
+	mk := func(goal *Term, extra []*Term, what string) *Obligation {
+		return &Obligation{Name: o.Name, Kind: o.Kind, Func: o.Func, Facts: append(append([]*Term(nil), o.Facts...), extra...), Goal: goal, Detail: what, Pos: o.Pos, Uses: o.Uses, Axioms: o.Axioms, Alg: o.Alg}
+	}
+	// case 1: idx == j, i.e. sk == j - rest
+	g1 := substitute(o.Goal, map[int]*Term{sk.id: Sub(j, rest)}, map[int]*Term{})
+	// case 2: idx != j: the read sees the old array
+	old := Select(st.args[0], idx)
+	g2 := substitute(o.Goal, map[int]*Term{sel.id: old}, map[int]*Term{})
+	return []*Obligation{mk(g1, nil, "index is the updated element"), mk(g2, []*Term{Not(Eq(idx, j))}, "index is another element")}
+}
+
+func iffSides(t *Term) (p, q *Term, ok bool) {
+	if t.op != OEq || t.args[0].sort != SBool {
+		return nil, nil, false
+	}
+	a, b := t.args[0], t.args[1]
+	if b.op == OForall && a.op != OForall {
+		return a, b, true
+	}
+	if a.op == OForall && b.op != OForall {
+		return b, a, true
+	}
+	return nil, nil, false
+}
+
+// splitIffForall: goal  p <=> forall k. B  becomes  (p ==> forall k. B)  and  (facts, forall k. B |- p).
+func splitIffForall(o *Obligation) []*Obligation {
+	p, q, ok := iffSides(o.Goal)
+	if !ok {
+		return nil
+	}
+	mk := func(goal *Term, extra []*Term, what string) *Obligation {
+		return &Obligation{Name: o.Name, Kind: o.Kind, Func: o.Func, Facts: append(append([]*Term(nil), o.Facts...), extra...), Goal: goal, Detail: what, Pos: o.Pos, Uses: o.Uses, Axioms: o.Axioms, Alg: o.Alg}
+	}
+	return []*Obligation{mk(Imp(p, q), nil, "flag implies all"), mk(p, []*Term{q}, "all implies flag")}
+}
+
+// iffForallFacts: from a fact  p <=> forall k. B(k)  derive  p ==> forall k. B(k)  and, for a
+// fresh witness w,  !p ==> !B(w)  (skolemised existential).
+func iffForallFacts(facts []*Term) []*Term {
+	var out []*Term
+	for _, f := range facts {
+		p, q, ok := iffSides(f)
+		if !ok {
+			continue
+		}
+		out = append(out, Imp(p, q))
+		w := FreshVar("wit", q.args[0].sort)
+		out = append(out, Imp(Not(p), Not(substitute(q.args[1], map[int]*Term{q.args[0].id: w}, map[int]*Term{}))))
+	}
+	return out
 }
 
 func quantifierFree(facts []*Term) []*Term {
